@@ -49,6 +49,7 @@ type Program struct {
 	runtimeErrorString types.Type
 	Stubs              map[string]*ssa.Function // qualified callee name -> harness function
 	Nops               map[string]bool          // functions given empty bodies
+	Links              map[string]string        // harness func (go:linkname) -> qualified target
 	LoadSeconds        float64
 	Files              []string // source files of the target packages (for evidence)
 
@@ -89,7 +90,7 @@ func Load(dir string, overlay map[string][]byte, patterns ...string) (*Program, 
 	}
 	prog, _ := ssautil.AllPackages(pkgs, ssa.InstantiateGenerics|ssa.BareInits|ssa.SanityCheckFunctions&0)
 	prog.Build()
-	P := &Program{Prog: prog, Pkgs: map[string]*ssa.Package{}, Stubs: map[string]*ssa.Function{}}
+	P := &Program{Prog: prog, Pkgs: map[string]*ssa.Package{}, Stubs: map[string]*ssa.Function{}, Links: map[string]string{}}
 	for _, sp := range prog.AllPackages() {
 		P.Pkgs[sp.Pkg.Path()] = sp
 	}
@@ -110,6 +111,12 @@ func Load(dir string, overlay map[string][]byte, patterns ...string) (*Program, 
 			}
 			for _, cg := range f.Comments {
 				for _, c := range cg.List {
+					if rest, ok := strings.CutPrefix(c.Text, "//go:linkname "); ok {
+						fields := strings.Fields(rest)
+						if len(fields) == 2 {
+							P.Links[pk.PkgPath+"."+fields[0]] = fields[1]
+						}
+					}
 					if rest, ok := strings.CutPrefix(c.Text, "//verif:stub "); ok {
 						fields := strings.Fields(rest)
 						if len(fields) != 2 {
